@@ -1115,7 +1115,10 @@ def st_real_listener_case(draw: st.DrawFn, tier: str) -> dict:
 
     nerr = draw(st.integers(0, 3))
     idx = draw(st.lists(st.integers(0, 6), min_size=nerr, max_size=nerr, unique=True))
-    errnos = [_errno.EMFILE, _errno.ENFILE, _errno.ENOBUFS, _errno.ECONNABORTED, _errno.EPROTO]
+    # resource exhaustion (retried after a back-off) and the per-connection network errors which accept(2) passes on and
+    # which "should be treated like EAGAIN" (Linux man page): none of them may stop the server
+    errnos = [_errno.EMFILE, _errno.ENFILE, _errno.ENOBUFS, _errno.ENOMEM, _errno.ECONNABORTED, _errno.EPROTO]
+    errnos += [_errno.EPERM, _errno.ENETDOWN, _errno.ENOPROTOOPT, _errno.EHOSTDOWN, _errno.ENONET, _errno.EHOSTUNREACH, _errno.EOPNOTSUPP, _errno.ENETUNREACH]
     ops = []
     for _ in range(draw(st.integers(1, 3))):
         ops.append(("serve",))
